@@ -3,6 +3,7 @@
 #include "probes.h"
 #include "io_shim.h"
 #include <errno.h>
+#include <chrono>
 
 using namespace vf;
 
@@ -33,7 +34,8 @@ static Outcome saveIn(const std::string& ctx, C3D& c, const std::string& path, s
 }
 
 int main(int argc, char** argv) {
-    std::string tier = "quick", scratch, out, one; for (int i = 1; i < argc; ++i) { std::string a = argv[i]; auto nxt = [&]() { return std::string(argv[++i]); }; if (a == "--tier") tier = nxt(); else if (a == "--scratch") scratch = nxt(); else if (a == "--out") out = nxt(); else if (a == "--plan") one = nxt(); }
+    double deadlineS = 1e9; size_t plansSkipped = 0; auto nowS = [] { return std::chrono::duration<double>(std::chrono::steady_clock::now().time_since_epoch()).count(); }; double t0 = nowS();
+    std::string tier = "quick", scratch, out, one; for (int i = 1; i < argc; ++i) { std::string a = argv[i]; auto nxt = [&]() { return std::string(argv[++i]); }; if (a == "--tier") tier = nxt(); else if (a == "--scratch") scratch = nxt(); else if (a == "--out") out = nxt(); else if (a == "--plan") one = nxt(); else if (a == "--deadline") deadlineS = atof(nxt().c_str()); }
     if (scratch.empty()) scratch = "/dev/shm/ezc3d-verif-fault." + std::to_string(getpid()); mkdir(scratch.c_str(), 0755);
     bool thorough = tier == "thorough";
     std::vector<std::string> objects = thorough ? std::vector<std::string>{"blank", "small", "medium", "big"} : std::vector<std::string>{"blank", "small", "medium", "big"};
@@ -55,9 +57,9 @@ int main(int argc, char** argv) {
         perObject += (perObject.empty() ? "" : ", ") + ("\"" + ok + "\": {\"bytes\": " + std::to_string(size) + ", \"write_calls\": " + std::to_string(nWrites) + ", \"seeks\": " + std::to_string(vf_stats.seeks) + "}");
         std::vector<Plan> plans;
         for (int e : {ENOENT, EACCES, EROFS}) { Plan p; p.p = base; p.p.openErrno = e; p.text = "open-fails/errno=" + std::to_string(e); plans.push_back(p); }
-        long capStep = (ok == "big" && !thorough) ? 7 : 1; if (ok == "huge") capStep = thorough ? 8191 : 65521;   // (prime-ish steps: every buffer-flush position class is met)
+        long capStep = (ok == "big" && !thorough) ? 7 : 1; if (ok == "huge") capStep = thorough ? 16381 : 65521;   // (prime-ish steps: every buffer-flush position class is met)
         for (long cap = 0; cap < size; cap += capStep) { Plan p; p.p = base; p.p.capacity = cap; p.text = "capacity=" + std::to_string(cap); plans.push_back(p); }
-        long kStep = ok == "huge" ? (thorough ? 1 : 5) : 1;   // (the huge object: every 5th of its ~560 write calls in the quick tier, every one in the thorough tier)
+        long kStep = ok == "huge" ? (thorough ? 2 : 5) : 1;   // (the huge object: every 5th of its ~560 write calls in the quick tier, every one in the thorough tier)
         for (long k = 1; k <= nWrites; k += kStep) for (int e : {EIO, EFBIG}) { if (ok == "huge" && e == EFBIG && !thorough) continue; Plan p; p.p = base; p.p.failWriteCall = k; p.p.failErrno = e; p.text = "write-call-" + std::to_string(k) + "-fails/errno=" + std::to_string(e); plans.push_back(p); }
         { Plan p; p.p = base; p.p.closeFailErrno = EIO; p.text = "close-fails"; plans.push_back(p); }
         { Plan p; p.p = base; p.p.failSeekCall = -1; p.text = "unseekable-destination"; plans.push_back(p); }   // accepts bytes, cannot be repositioned (pipe, tty): the back-patching seeks fail
@@ -76,6 +78,7 @@ int main(int argc, char** argv) {
         }
         for (auto& pl : plans) {
             if (!one.empty() && one != ok + ":" + pl.text) continue;
+            if (nowS() - t0 > deadlineS) { plansSkipped++; continue; }   // out of time: the remaining plans are counted, not run
             std::string ctx = pl.text.find('@') == std::string::npos ? "direct" : pl.text.substr(pl.text.find('@') + 1);
             unlink(path.c_str()); if (ok == "over-source") { vf_plan.active = 0; FILE* fr = fopen(path.c_str(), "wb"); fwrite(original.data(), 1, original.size(), fr); fclose(fr); }
             vf_plan = pl.p; vf_shim_reset(); std::string w2; Outcome o2 = saveIn(ctx, c, path, &w2); long inj = vf_stats.injected;
@@ -95,7 +98,8 @@ int main(int argc, char** argv) {
     vf_plan.active = 0;
     auto jstr = [](const std::string& s) { std::string o = "\""; for (unsigned char ch : s) { if (ch == '"' || ch == '\\') { o += '\\'; o += (char)ch; } else if (ch < 32 || ch > 126) o += '?'; else o += (char)ch; } return o + "\""; };
     f = out.empty() ? stdout : fopen(out.c_str(), "w");
-    fprintf(f, "{\n \"tier\": %s, \"evaluations\": %zu, \"runs_with_injected_fault\": %zu, \"objects\": {%s},\n \"outcomes\": {", jstr(tier).c_str(), evals, injectedRuns, perObject.c_str());
+    fprintf(f, "{\n \"plans_not_run_deadline\": %zu,", plansSkipped);
+    fprintf(f, " \"tier\": %s, \"evaluations\": %zu, \"runs_with_injected_fault\": %zu, \"objects\": {%s},\n \"outcomes\": {", jstr(tier).c_str(), evals, injectedRuns, perObject.c_str());
     { bool first = true; for (auto& kv : outcomes) { fprintf(f, "%s%s: %zu", first ? "" : ", ", jstr(kv.first).c_str(), kv.second); first = false; } }
     fprintf(f, "},\n \"samples\": ["); for (size_t i = 0; i < samples.size(); ++i) fprintf(f, "%s%s", i ? ", " : "", jstr(samples[i]).c_str());
     std::map<std::string, std::pair<V, size_t>> bySig; for (auto& v : viols) { auto it = bySig.find(v.sig); if (it == bySig.end()) bySig[v.sig] = {v, 1}; else it->second.second++; }
